@@ -49,6 +49,7 @@ type FnRun struct {
 	loops    map[*ssa.BasicBlock]*loopInfo
 	clearRanges map[*ssa.Range]bool
 	mergeInto   *State
+	extraEnv    map[string]Val // captured variables of a closure whose contract is being applied
 	mergeMade   []*Obj
 	ord      map[ssa.Instruction]int
 	paths    int
